@@ -8,7 +8,8 @@ Environment: CoolProp's compiled AbstractState is replaced by `FluidStub`, whose
 (h(p,T), s(p,T), h(p,s), T(p,h), s(p,h), p_sat(T), T_sat(p), saturated h/s) constrained ONLY by identities that hold for
 every pure fluid (listed in CONTRACT below and in the evidence).  "All refrigerants known to the property library" is
 therefore covered as "any fluid satisfying the contract"; the numerical quality of CoolProp itself is outside.  A
-counterexample is replayed on the real library with water (and ammonia) at the model's temperatures: only clauses
+counterexample is replayed on the real library with water, n-pentane (a dry fluid: wet compressor discharge at small
+superheat) and, in the thorough tier, ammonia at the model's temperatures: only clauses
 whose violation does not depend on the fluid's property values can reproduce -- the others would be weak-contract
 artefacts and are therefore not asserted.
 """
@@ -170,10 +171,12 @@ def body(ctx, case):
     import numpy as np
     from OpenPinch.classes import simple_heat_pump as shp
     # inside the two-phase range of the fluid the concrete replays use (water: 0.01..374 C, ammonia: -77.7..132 C), away from its ends
-    te_lo, te_hi, tc_hi = {"water": (5, 90, 200), "ammonia": (-40, 40, 100)}[case.get("fluid", "water")]
+    # n-pentane is a 'dry' fluid (overhanging dew line): with little superheat its compression ends inside the dome, so the
+    # wet-discharge paths of the model have concrete replays too
+    te_lo, te_hi, tc_hi, sh_hi = {"water": (5, 90, 200, 20), "ammonia": (-40, 40, 100, 20), "n-Pentane": (30, 80, 160, 0.5)}[case.get("fluid", "water")]
     Te = ctx.real("Te", te_lo, te_hi)
     Tc = ctx.real("Tc", te_lo, tc_hi)
-    dsh = ctx.real("dsh", 0, 20)
+    dsh = ctx.real("dsh", 0, sh_hi)
     dsc = ctx.real("dsc", 0, 20)
     eta = ctx.const(float(case.get("eta", 0.75)))      # concrete: h_out = h_in + (h_is - h_in)/eta stays linear in the state functions
     Q = ctx.const(float(case.get("Q", 1000.0)))
@@ -258,17 +261,18 @@ def body(ctx, case):
 
 def cases(tier, seed):
     if tier == "quick":
-        return [{"fluid": "water", "eta": 0.75, "Q": 1000.0}, {"fluid": "water", "eta": 0.75, "Q": 1000.0, "small_lift": True}]
-    return ([{"fluid": f, "eta": e, "Q": q} for f in ("water", "ammonia") for e, q in ((0.5, 1000.0), (0.75, 40.0), (1.0, 250.0))]
+        return [{"fluid": "water", "eta": 0.75, "Q": 1000.0}, {"fluid": "n-Pentane", "eta": 1.0, "Q": 1000.0},
+                {"fluid": "water", "eta": 0.75, "Q": 1000.0, "small_lift": True}]
+    return ([{"fluid": f, "eta": e, "Q": q} for f in ("water", "ammonia", "n-Pentane") for e, q in ((0.5, 1000.0), (0.75, 40.0), (1.0, 250.0))]
             + [{"fluid": "water", "eta": 0.75, "Q": 1000.0, "small_lift": True}])
 
 
 FAMILIES = [
     Family(name="cycle", cases=cases, body=body, functions=FUNCS, files=FILES,
-           bounds="evaporating temperature in [5,90] C and condensing up to 200 C (water replays; ammonia: [-40,40] and up to 100 C) with lift >= 1 K, superheat and subcooling in [0,20] K, compressor efficiency concrete in {0.5, 0.75, 1} and duty concrete (the cycle is linear in the duty) "
+           bounds="evaporating temperature in [5,90] C and condensing up to 200 C (water replays; ammonia: [-40,40] and up to 100 C; n-pentane: [30,80] and up to 160 C, superheat <= 0.5 K) with lift >= 1 K, superheat and subcooling in [0,20] K, compressor efficiency concrete in {0.5, 0.75, 1} and duty concrete (the cycle is linear in the duty) "
                   "-- temperatures, superheat and subcooling z3 reals; ihx_gas_dt = 0; request order of the stream sets (condenser first / evaporator first / both at once) a solver choice",
            assumptions=["CoolProp AbstractState replaced by uninterpreted state functions under the contract: " + "; ".join(CONTRACT),
-                        "sub-critical cycles only (critical point moved out of range)", "replay on the real library with water (thorough: also ammonia) at the model's temperatures"],
+                        "sub-critical cycles only (critical point moved out of range)", "replay on the real library with water and n-pentane (thorough: also ammonia) at the model's temperatures"],
            shim_modules=["OpenPinch.classes.simple_heat_pump", "OpenPinch.classes.stream", "OpenPinch.classes.stream_collection"],
            timeout_ms=60000, split_paths=20, validate_every=3, concrete_only_validation=True, snap="dyadic", reach=["order=0", "order=1", "order=2", "small lift explored"]),
 ]
